@@ -167,6 +167,7 @@ func (dec *Decoder) decodeWithPool(data []byte) (*DecodeResult, error) {
 		// This will only happen if the decoder was initialized outside of NewDecoder
 		return nil, fmt.Errorf("invalid decoder")
 	}
+	res.released = false
 	err := res.decode(data)
 	if err != nil {
 		// call res.Close() on error to clean up field data
